@@ -11,12 +11,16 @@ import Mathlib.Tactic.Linarith
 import Mathlib.Tactic.NormNum
 import Mathlib.Tactic.Positivity
 import Mathlib.Tactic.FieldSimp
+import Mathlib.Tactic.LinearCombination
+import Mathlib.Algebra.BigOperators.Fin
+import Mathlib.Algebra.Order.BigOperators.Ring.Finset
+import Mathlib.Analysis.Convex.Function
 /-
 Real-number reading of the constraint-update model (Model/Constraint.lean) and the helper lemmas used
 by Props/C11.lean and Props/C12.lean.
 -/
 namespace MjProof.Constraint
-open MjProof
+open MjProof Asymptotics Filter Topology
 
 /-! ### the operations of `MjNum ℝ` are the field operations of `ℝ` -/
 theorem r_mul (a b : ℝ) : @HMul.hMul ℝ ℝ ℝ (@instHMul ℝ (MjNum.toMul)) a b = a * b := rfl
@@ -146,5 +150,476 @@ theorem hasDerivAt_of_eq_on_Ioi {f h : ℝ → ℝ} {a f' l : ℝ} (hla : l < a)
   refine hf.congr_of_eventuallyEq ?_
   filter_upwards [Ioi_mem_nhds hla] with x hx
   exact he x hx
+
+
+/-! ### derivative from a two-sided quadratic sandwich; convexity from supporting lines -/
+theorem hasDerivAt_of_sandwich {c : ℝ → ℝ} {g x0 L : ℝ}
+    (hlo : ∀ x, c x0 + g * (x - x0) ≤ c x)
+    (hup : ∀ x, c x ≤ c x0 + g * (x - x0) + L * (x - x0) ^ 2) : HasDerivAt c g x0 := by
+  rw [hasDerivAt_iff_isLittleO]
+  have hO : (fun x => c x - c x0 - (x - x0) • g) =O[𝓝 x0] (fun x => ‖x - x0‖ ^ 2) := by
+    refine IsBigO.of_bound |L| (Eventually.of_forall fun x => ?_)
+    have h1 := hlo x
+    have h2 := hup x
+    have e0 : 0 ≤ c x - c x0 - (x - x0) • g := by rw [smul_eq_mul]; linarith
+    rw [Real.norm_eq_abs, abs_of_nonneg e0, Real.norm_eq_abs, Real.norm_eq_abs, abs_pow, abs_abs,
+      smul_eq_mul, ← abs_pow, abs_of_nonneg (sq_nonneg (x - x0))]
+    have : L * (x - x0) ^ 2 ≤ |L| * (x - x0) ^ 2 :=
+      mul_le_mul_of_nonneg_right (le_abs_self L) (sq_nonneg _)
+    linarith
+  exact hO.trans_isLittleO (isLittleO_pow_sub_sub x0 one_lt_two)
+
+theorem convexOn_of_subgradient {c g : ℝ → ℝ}
+    (hsub : ∀ x y, c y + g y * (x - y) ≤ c x) : ConvexOn ℝ Set.univ c := by
+  refine ⟨convex_univ, fun x _ y _ a b ha hb hab => ?_⟩
+  have h1 := hsub x (a • x + b • y)
+  have h2 := hsub y (a • x + b • y)
+  simp only [smul_eq_mul] at *
+  have hb' : b = 1 - a := by linarith
+  subst hb'
+  nlinarith [mul_le_mul_of_nonneg_left h1 ha, mul_le_mul_of_nonneg_left h2 hb]
+
+/-! ### Huber function -/
+/-- Huber cost with unit curvature and threshold `b` -/
+noncomputable def huber1 (b x : ℝ) : ℝ :=
+  if x ≤ -b then -(1 / 2) * b * b - b * x
+  else if b ≤ x then -(1 / 2) * b * b + b * x
+  else 1 / 2 * x * x
+/-- its derivative -/
+noncomputable def huber1' (b x : ℝ) : ℝ :=
+  if x ≤ -b then -b else if b ≤ x then b else x
+
+theorem huber1_lower (b x y : ℝ) (hb : 0 ≤ b) :
+    huber1 b y + huber1' b y * (x - y) ≤ huber1 b x := by
+  unfold huber1 huber1'
+  split_ifs with h1 h2 h3 h4 h5 h6 h7 h8 <;> try push Not at *
+  all_goals nlinarith [sq_nonneg (x - y), sq_nonneg (x + b), sq_nonneg (x - b), sq_nonneg (y + b), sq_nonneg (y - b)]
+
+theorem huber1_upper (b x y : ℝ) (hb : 0 ≤ b) :
+    huber1 b x ≤ huber1 b y + huber1' b y * (x - y) + 1 / 2 * (x - y) ^ 2 := by
+  unfold huber1 huber1'
+  split_ifs with h1 h2 h3 h4 h5 h6 h7 h8 <;> try push Not at *
+  all_goals nlinarith [sq_nonneg (x - y), sq_nonneg (x + b), sq_nonneg (x - b), sq_nonneg (y + b), sq_nonneg (y - b)]
+
+/-! ### elliptic cone block on ℝ -/
+
+/-- rows of a cone block given by coordinate functions -/
+def tsOf {n : ℕ} (D w jar : Fin n → ℝ) : List (TRow ℝ) := List.ofFn fun i => ⟨D i, jar i, w i⟩
+
+/-- Σ (jarᵢ wᵢ)² -/
+def SS {n : ℕ} (w jar : Fin n → ℝ) : ℝ := ∑ i, (jar i * w i) ^ 2
+/-- `T` -/
+noncomputable def TT {n : ℕ} (w jar : Fin n → ℝ) : ℝ := Real.sqrt (SS w jar)
+
+theorem SS_nonneg {n : ℕ} (w jar : Fin n → ℝ) : 0 ≤ SS w jar :=
+  Finset.sum_nonneg fun _ _ => sq_nonneg _
+theorem TT_nonneg {n : ℕ} (w jar : Fin n → ℝ) : 0 ≤ TT w jar := Real.sqrt_nonneg _
+theorem TT_sq {n : ℕ} (w jar : Fin n → ℝ) : TT w jar * TT w jar = SS w jar :=
+  Real.mul_self_sqrt (SS_nonneg w jar)
+
+theorem sqSum_ofFn {n : ℕ} (f : Fin n → ℝ) : sqSum (List.ofFn f) = ∑ i, f i ^ 2 := by
+  unfold sqSum
+  rw [List.map_ofFn, List.sum_ofFn]
+  exact Finset.sum_congr rfl fun i _ => by simp [sq]
+
+theorem norm_tsOf {n : ℕ} (D w jar : Fin n → ℝ) : norm (ellUt (tsOf D w jar)) = TT w jar := by
+  rw [norm_real]
+  unfold ellUt tsOf TT SS
+  rw [List.map_ofFn, sqSum_ofFn]
+  congr 1
+
+theorem ellZone_real (mu N T : ℝ) :
+    ellZone mu N T =
+      if mu * T ≤ N ∨ (T ≤ 0 ∧ 0 ≤ N) then Zone.top
+      else if mu * N + T ≤ 0 ∨ (T ≤ 0 ∧ N < 0) then Zone.bottom else Zone.middle := by
+  unfold ellZone
+  simp only [r_mul, r_add, r_le, r_lt, zero_real]
+
+/-- for `mu > 0`, `T ≥ 0` the zone only depends on the signs of `s = N − mu T` and `q = mu N + T` -/
+theorem ellZone_of_nonneg {mu N T : ℝ} (hmu : 0 < mu) (hT : 0 ≤ T) :
+    ellZone mu N T =
+      if 0 ≤ N - mu * T then Zone.top else if mu * N + T ≤ 0 then Zone.bottom else Zone.middle := by
+  rw [ellZone_real]
+  have h1 : (mu * T ≤ N ∨ (T ≤ 0 ∧ 0 ≤ N)) ↔ 0 ≤ N - mu * T := by
+    constructor
+    · rintro (h | ⟨h1, h2⟩)
+      · linarith
+      · have : T = 0 := le_antisymm h1 hT
+        subst this; simpa using h2
+    · intro h; left; linarith
+  have h2 : (mu * N + T ≤ 0 ∨ (T ≤ 0 ∧ N < 0)) ↔ mu * N + T ≤ 0 := by
+    constructor
+    · rintro (h | ⟨h1, h2⟩)
+      · exact h
+      · have : T = 0 := le_antisymm h1 hT
+        subst this; nlinarith
+    · intro h; left; exact h
+  simp only [h1, h2]
+
+
+theorem ellDm_real (D0 mu : ℝ) : ellDm D0 mu = D0 / (mu * mu * (1 + mu * mu)) := by
+  unfold ellDm; simp only [r_mul, r_add, r_div, one_real]
+
+section block
+variable {n : ℕ} (D0 mu : ℝ) (D w : Fin n → ℝ)
+
+/-- zone of the block at residual `(j0, jar)` -/
+noncomputable def blkZone (j0 : ℝ) (jar : Fin n → ℝ) : Zone := ellZone mu (j0 * mu) (TT w jar)
+
+/-- cost of the block (sum of the increments the code adds to `s`) in closed form -/
+noncomputable def blkCost (j0 : ℝ) (jar : Fin n → ℝ) : ℝ :=
+  match blkZone mu w j0 jar with
+  | Zone.top => 0
+  | Zone.bottom => 1 / 2 * D0 * j0 * j0 + ∑ i, 1 / 2 * D i * jar i * jar i
+  | Zone.middle =>
+    1 / 2 * ellDm D0 mu * (j0 * mu - mu * TT w jar) * (j0 * mu - mu * TT w jar)
+
+/-- normal force of the block in closed form -/
+noncomputable def blkForceN (j0 : ℝ) (jar : Fin n → ℝ) : ℝ :=
+  match blkZone mu w j0 jar with
+  | Zone.top => 0
+  | Zone.bottom => -D0 * j0
+  | Zone.middle => -ellDm D0 mu * (j0 * mu - mu * TT w jar) * mu
+
+/-- tangential forces of the block in closed form -/
+noncomputable def blkForceT (j0 : ℝ) (jar : Fin n → ℝ) (i : Fin n) : ℝ :=
+  match blkZone mu w j0 jar with
+  | Zone.top => 0
+  | Zone.bottom => -D i * jar i
+  | Zone.middle => -(blkForceN D0 mu w j0 jar) / TT w jar * (jar i * w i) * w i
+
+theorem ellBlock_terms_sum (j0 : ℝ) (jar : Fin n → ℝ) :
+    ((ellBlock D0 j0 mu (tsOf D w jar)).terms).sum = blkCost D0 mu D w j0 jar := by
+  unfold ellBlock blkCost blkZone
+  simp only [norm_tsOf, r_mul, r_sub, r_neg, half_real]
+  cases ellZone mu (j0 * mu) (TT w jar) with
+  | top => simp
+  | bottom =>
+    simp only [List.sum_cons, tsOf, List.map_ofFn, List.sum_ofFn]
+    rfl
+  | middle => simp
+
+theorem ellBlock_force (j0 : ℝ) (jar : Fin n → ℝ) :
+    (ellBlock D0 j0 mu (tsOf D w jar)).force =
+      blkForceN D0 mu w j0 jar :: List.ofFn (blkForceT D0 mu D w j0 jar) := by
+  unfold ellBlock blkForceT blkForceN blkZone
+  simp only [norm_tsOf, r_mul, r_sub, r_neg, r_div, half_real, zero_real, midForceN, midForceT]
+  cases ellZone mu (j0 * mu) (TT w jar) with
+  | top => simp only [tsOf, List.map_ofFn]; rfl
+  | bottom => simp only [tsOf, List.map_ofFn]; rfl
+  | middle => simp only [tsOf, List.map_ofFn]; rfl
+
+end block
+
+
+/-! ### the one-sided quadratic `q1 t = ½ min(t,0)²` and its derivative -/
+noncomputable def q1 (t : ℝ) : ℝ := if 0 ≤ t then 0 else 1 / 2 * t * t
+noncomputable def q1' (t : ℝ) : ℝ := if 0 ≤ t then 0 else t
+
+theorem q1_nonneg (t : ℝ) : 0 ≤ q1 t := by
+  unfold q1; split_ifs
+  · exact le_rfl
+  · nlinarith [mul_self_nonneg t]
+theorem q1'_nonpos (t : ℝ) : q1' t ≤ 0 := by
+  unfold q1'; split_ifs with h
+  · exact le_rfl
+  · exact (not_le.mp h).le
+theorem q1_lower (x z : ℝ) : q1 z + q1' z * (x - z) ≤ q1 x := by
+  unfold q1 q1'
+  split_ifs with h1 h2 h2 <;> try push Not at *
+  all_goals nlinarith [sq_nonneg (x - z), sq_nonneg x, sq_nonneg z]
+theorem q1_upper (x z : ℝ) : q1 x ≤ q1 z + q1' z * (x - z) + 1 / 2 * (x - z) ^ 2 := by
+  unfold q1 q1'
+  split_ifs with h1 h2 h2 <;> try push Not at *
+  all_goals nlinarith [sq_nonneg (x - z), sq_nonneg x, sq_nonneg z]
+theorem q1'_eq_min (t : ℝ) : q1' t = min t 0 := by
+  unfold q1'; split_ifs with h
+  · exact (min_eq_right h).symm
+  · exact (min_eq_left (not_le.mp h).le).symm
+
+section block2
+variable {n : ℕ} {D0 mu : ℝ} {D w : Fin n → ℝ}
+
+/-- `β`: the tangential gradient of the cost is `Dm (1+mu²) β U` -/
+noncomputable def blkBeta (mu : ℝ) (w : Fin n → ℝ) (j0 : ℝ) (jar : Fin n → ℝ) : ℝ :=
+  match blkZone mu w j0 jar with
+  | Zone.top => 0
+  | Zone.bottom => 1
+  | Zone.middle => -mu * (j0 * mu - mu * TT w jar) / ((1 + mu * mu) * TT w jar)
+
+theorem blkZone_eq (hmu : 0 < mu) (j0 : ℝ) (jar : Fin n → ℝ) :
+    blkZone mu w j0 jar =
+      if 0 ≤ j0 * mu - mu * TT w jar then Zone.top
+      else if mu * (j0 * mu) + TT w jar ≤ 0 then Zone.bottom else Zone.middle :=
+  ellZone_of_nonneg hmu (TT_nonneg w jar)
+
+theorem rel_sum (hrel : ∀ i, D i * (mu * mu) = D0 * (w i * w i)) (jar : Fin n → ℝ) :
+    (∑ i, 1 / 2 * D i * jar i * jar i) * (mu * mu) = 1 / 2 * D0 * SS w jar := by
+  unfold SS
+  rw [Finset.sum_mul, Finset.mul_sum]
+  refine Finset.sum_congr rfl fun i _ => ?_
+  have := hrel i
+  calc 1 / 2 * D i * jar i * jar i * (mu * mu) = 1 / 2 * (D i * (mu * mu)) * jar i * jar i := by ring
+    _ = 1 / 2 * D0 * (jar i * w i) ^ 2 := by rw [this]; ring
+
+theorem q1_of_nonneg {t : ℝ} (h : 0 ≤ t) : q1 t = 0 := by unfold q1; rw [if_pos h]
+theorem q1_of_nonpos {t : ℝ} (h : t ≤ 0) : q1 t = 1 / 2 * t * t := by
+  unfold q1; split_ifs with h0
+  · have : t = 0 := le_antisymm h h0
+    subst this; ring
+  · rfl
+theorem q1'_of_nonneg {t : ℝ} (h : 0 ≤ t) : q1' t = 0 := by unfold q1'; rw [if_pos h]
+theorem q1'_of_nonpos {t : ℝ} (h : t ≤ 0) : q1' t = t := by
+  unfold q1'; split_ifs with h0
+  · exact (le_antisymm h h0).symm
+  · rfl
+
+/-- the three zones in terms of `s = N − mu T`, `q = mu N + T` -/
+theorem blkZone_cases (hmu : 0 < mu) (j0 : ℝ) (jar : Fin n → ℝ) :
+    (blkZone mu w j0 jar = Zone.top ∧ 0 ≤ j0 * mu - mu * TT w jar ∧ 0 ≤ mu * (j0 * mu) + TT w jar) ∨
+    (blkZone mu w j0 jar = Zone.bottom ∧ j0 * mu - mu * TT w jar < 0 ∧ mu * (j0 * mu) + TT w jar ≤ 0) ∨
+    (blkZone mu w j0 jar = Zone.middle ∧ j0 * mu - mu * TT w jar < 0 ∧ 0 < mu * (j0 * mu) + TT w jar) := by
+  have hT := TT_nonneg w jar
+  rw [blkZone_eq hmu]
+  by_cases h1 : 0 ≤ j0 * mu - mu * TT w jar
+  · left
+    refine ⟨if_pos h1, h1, ?_⟩
+    have : 0 ≤ mu * TT w jar := mul_nonneg hmu.le hT
+    nlinarith
+  · right
+    by_cases h2 : mu * (j0 * mu) + TT w jar ≤ 0
+    · left; exact ⟨by rw [if_neg h1, if_pos h2], not_le.mp h1, h2⟩
+    · right; exact ⟨by rw [if_neg h1, if_neg h2], not_le.mp h1, not_le.mp h2⟩
+
+/-- under the impedance relation the block cost is `Dm (q1(N − mu T) + q1(mu N + T))` -/
+theorem blkCost_eq (hmu : 0 < mu) (hrel : ∀ i, D i * (mu * mu) = D0 * (w i * w i))
+    (j0 : ℝ) (jar : Fin n → ℝ) :
+    blkCost D0 mu D w j0 jar =
+      ellDm D0 mu * (q1 (j0 * mu - mu * TT w jar) + q1 (mu * (j0 * mu) + TT w jar)) := by
+  have hTT := TT_sq w jar
+  have hm : 0 < mu * mu := mul_pos hmu hmu
+  unfold blkCost
+  rcases blkZone_cases (w := w) hmu j0 jar with ⟨hz, h1, h2⟩ | ⟨hz, h1, h2⟩ | ⟨hz, h1, h2⟩
+  · rw [hz, q1_of_nonneg h1, q1_of_nonneg h2]; simp
+  · rw [hz, q1_of_nonpos h1.le, q1_of_nonpos h2, ellDm_real]
+    have hs := rel_sum hrel jar
+    have hne : mu * mu ≠ 0 := hm.ne'
+    have hne2 : (1 + mu * mu) ≠ 0 := by positivity
+    have e : (∑ i, 1 / 2 * D i * jar i * jar i) = 1 / 2 * D0 * SS w jar / (mu * mu) := by
+      rw [eq_div_iff hne]; exact hs
+    simp only []
+    rw [e, ← hTT]
+    field_simp
+    ring
+  · rw [hz, q1_of_nonpos h1.le, q1_of_nonneg h2.le]
+    simp only []
+    ring
+
+
+theorem blkForceN_eq (hmu : 0 < mu) (j0 : ℝ) (jar : Fin n → ℝ) :
+    blkForceN D0 mu w j0 jar =
+      -(ellDm D0 mu * mu * (q1' (j0 * mu - mu * TT w jar) + mu * q1' (mu * (j0 * mu) + TT w jar))) := by
+  unfold blkForceN
+  rcases blkZone_cases (w := w) hmu j0 jar with ⟨hz, h1, h2⟩ | ⟨hz, h1, h2⟩ | ⟨hz, h1, h2⟩
+  · rw [hz, q1'_of_nonneg h1, q1'_of_nonneg h2]; simp
+  · rw [hz, q1'_of_nonpos h1.le, q1'_of_nonpos h2, ellDm_real]
+    have hne : mu ≠ 0 := hmu.ne'
+    have hne2 : (1 + mu * mu) ≠ 0 := by positivity
+    simp only []
+    field_simp
+    ring
+  · rw [hz, q1'_of_nonpos h1.le, q1'_of_nonneg h2.le]
+    simp only []
+    ring
+
+theorem blkBeta_nonneg (hmu : 0 < mu) (j0 : ℝ) (jar : Fin n → ℝ) : 0 ≤ blkBeta mu w j0 jar := by
+  unfold blkBeta
+  have hT := TT_nonneg w jar
+  rcases blkZone_cases (w := w) hmu j0 jar with ⟨hz, h1, h2⟩ | ⟨hz, h1, h2⟩ | ⟨hz, h1, h2⟩
+  · rw [hz]
+  · rw [hz]; exact zero_le_one
+  · rw [hz]
+    simp only []
+    apply div_nonneg
+    · nlinarith
+    · positivity
+
+theorem blkBeta_le_one (hmu : 0 < mu) (j0 : ℝ) (jar : Fin n → ℝ) : blkBeta mu w j0 jar ≤ 1 := by
+  unfold blkBeta
+  have hT := TT_nonneg w jar
+  rcases blkZone_cases (w := w) hmu j0 jar with ⟨hz, h1, h2⟩ | ⟨hz, h1, h2⟩ | ⟨hz, h1, h2⟩
+  · rw [hz]; exact zero_le_one
+  · rw [hz]
+  · rw [hz]
+    simp only []
+    have hTpos : 0 < TT w jar := by
+      rcases hT.eq_or_lt with h | h
+      · exfalso; rw [← h] at h1 h2; nlinarith
+      · exact h
+    rw [div_le_one (by positivity)]
+    nlinarith
+
+/-- `β T (1+mu²) = −mu q1'(s) + q1'(q)` -/
+theorem blkBeta_mul_T (hmu : 0 < mu) (j0 : ℝ) (jar : Fin n → ℝ) :
+    blkBeta mu w j0 jar * TT w jar * (1 + mu * mu) =
+      -mu * q1' (j0 * mu - mu * TT w jar) + q1' (mu * (j0 * mu) + TT w jar) := by
+  unfold blkBeta
+  have hT := TT_nonneg w jar
+  rcases blkZone_cases (w := w) hmu j0 jar with ⟨hz, h1, h2⟩ | ⟨hz, h1, h2⟩ | ⟨hz, h1, h2⟩
+  · rw [hz, q1'_of_nonneg h1, q1'_of_nonneg h2]; simp
+  · rw [hz, q1'_of_nonpos h1.le, q1'_of_nonpos h2]; simp only []; ring
+  · rw [hz, q1'_of_nonpos h1.le, q1'_of_nonneg h2.le]
+    simp only []
+    have hTpos : 0 < TT w jar := by
+      rcases hT.eq_or_lt with h | h
+      · exfalso; rw [← h] at h1 h2; nlinarith
+      · exact h
+    have hne : TT w jar ≠ 0 := hTpos.ne'
+    have hne2 : (1 + mu * mu) ≠ 0 := by positivity
+    field_simp
+    ring
+
+theorem blkForceT_eq (hmu : 0 < mu) (hrel : ∀ i, D i * (mu * mu) = D0 * (w i * w i))
+    (j0 : ℝ) (jar : Fin n → ℝ) (i : Fin n) :
+    blkForceT D0 mu D w j0 jar i =
+      -(ellDm D0 mu * (1 + mu * mu) * blkBeta mu w j0 jar * (jar i * w i) * w i) := by
+  unfold blkForceT blkBeta blkForceN
+  have hT := TT_nonneg w jar
+  have hne : mu ≠ 0 := hmu.ne'
+  have hne2 : (1 + mu * mu) ≠ 0 := by positivity
+  rcases blkZone_cases (w := w) hmu j0 jar with ⟨hz, h1, h2⟩ | ⟨hz, h1, h2⟩ | ⟨hz, h1, h2⟩
+  · rw [hz]; simp
+  · rw [hz, ellDm_real]
+    simp only []
+    have := hrel i
+    have e : D i = D0 * (w i * w i) / (mu * mu) := by
+      rw [eq_div_iff (mul_ne_zero hne hne)]; exact this
+    rw [e]
+    field_simp
+  · rw [hz]
+    simp only []
+    have hTpos : 0 < TT w jar := by
+      rcases hT.eq_or_lt with h | h
+      · exfalso; rw [← h] at h1 h2; nlinarith
+      · exact h
+    have hne3 : TT w jar ≠ 0 := hTpos.ne'
+    field_simp
+
+
+/-- `⟨U_z, U_x⟩` -/
+def pp (w x z : Fin n → ℝ) : ℝ := ∑ i, (z i * w i) * (x i * w i)
+
+theorem pp_le (w x z : Fin n → ℝ) : pp w x z ≤ TT w z * TT w x := by
+  have h := Finset.sum_mul_sq_le_sq_mul_sq Finset.univ (fun i => z i * w i) (fun i => x i * w i)
+  have h0 : 0 ≤ TT w z * TT w x := mul_nonneg (TT_nonneg w z) (TT_nonneg w x)
+  have h1 : pp w x z ^ 2 ≤ (TT w z * TT w x) ^ 2 := by
+    have e : (TT w z * TT w x) ^ 2 = SS w z * SS w x := by
+      rw [mul_pow, sq, sq, TT_sq, TT_sq]
+    rw [e]; exact h
+  exact (abs_le_of_sq_le_sq' h1 h0).2
+
+theorem ellDm_nonneg (hD0 : 0 ≤ D0) (mu : ℝ) : 0 ≤ ellDm D0 mu := by
+  rw [ellDm_real]; apply div_nonneg hD0
+  have := mul_self_nonneg mu
+  nlinarith
+
+/-- the linear part of the tangential forces: `Σ (−f_i(z)) (x_i − z_i) = Dm (1+mu²) β (⟨U_z,U_x⟩ − T_z²)` -/
+theorem sum_forceT (hmu : 0 < mu) (hrel : ∀ i, D i * (mu * mu) = D0 * (w i * w i))
+    (j0z : ℝ) (jx jz : Fin n → ℝ) :
+    ∑ i, (-(blkForceT D0 mu D w j0z jz i)) * (jx i - jz i) =
+      ellDm D0 mu * (1 + mu * mu) * blkBeta mu w j0z jz * (pp w jx jz - SS w jz) := by
+  unfold pp SS
+  rw [← Finset.sum_sub_distrib, Finset.mul_sum]
+  refine Finset.sum_congr rfl fun i _ => ?_
+  rw [blkForceT_eq hmu hrel]
+  ring
+
+/-- gradient (supporting hyperplane) inequality of the block cost: the first-order model built from
+    the returned forces at `z` never exceeds the cost -/
+theorem blk_lower (hmu : 0 < mu) (hD0 : 0 ≤ D0) (hrel : ∀ i, D i * (mu * mu) = D0 * (w i * w i))
+    (j0x : ℝ) (jx : Fin n → ℝ) (j0z : ℝ) (jz : Fin n → ℝ) :
+    blkCost D0 mu D w j0z jz + (-(blkForceN D0 mu w j0z jz)) * (j0x - j0z) +
+      ∑ i, (-(blkForceT D0 mu D w j0z jz i)) * (jx i - jz i) ≤ blkCost D0 mu D w j0x jx := by
+  rw [sum_forceT hmu hrel, blkCost_eq hmu hrel, blkCost_eq hmu hrel, blkForceN_eq hmu]
+  have hDm := ellDm_nonneg hD0 mu
+  have hG := blkBeta_mul_T (w := w) hmu j0z jz
+  have hb0 := blkBeta_nonneg (w := w) hmu j0z jz
+  have hp := pp_le w jx jz
+  have hTz := TT_sq w jz
+  have hL1 := q1_lower (j0x * mu - mu * TT w jx) (j0z * mu - mu * TT w jz)
+  have hL2 := q1_lower (mu * (j0x * mu) + TT w jx) (mu * (j0z * mu) + TT w jz)
+  set Dm := ellDm D0 mu
+  set β := blkBeta mu w j0z jz
+  set Tx := TT w jx
+  set Tz := TT w jz
+  set p := pp w jx jz
+  set a := q1' (j0z * mu - mu * Tz)
+  set b := q1' (mu * (j0z * mu) + Tz)
+  have hm : 0 < 1 + mu * mu := by positivity
+  have hneg : (1 + mu * mu) * β * (p - Tz * Tx) ≤ 0 := by
+    have : 0 ≤ (1 + mu * mu) * β := mul_nonneg hm.le hb0
+    nlinarith
+  have key : q1 (j0z * mu - mu * Tz) + q1 (mu * (j0z * mu) + Tz) + mu * (a + mu * b) * (j0x - j0z) +
+      (1 + mu * mu) * β * (p - SS w jz) ≤
+      q1 (j0x * mu - mu * Tx) + q1 (mu * (j0x * mu) + Tx) := by
+    have e : (1 + mu * mu) * β * (p - SS w jz) =
+        (1 + mu * mu) * β * (p - Tz * Tx) + (-mu * a + b) * (Tx - Tz) := by
+      rw [← hTz]; linear_combination (Tx - Tz) * hG
+    rw [e]
+    nlinarith
+  calc Dm * (q1 (j0z * mu - mu * Tz) + q1 (mu * (j0z * mu) + Tz)) +
+        -(-(Dm * mu * (a + mu * b))) * (j0x - j0z) + Dm * (1 + mu * mu) * β * (p - SS w jz)
+      = Dm * (q1 (j0z * mu - mu * Tz) + q1 (mu * (j0z * mu) + Tz) + mu * (a + mu * b) * (j0x - j0z) +
+          (1 + mu * mu) * β * (p - SS w jz)) := by ring
+    _ ≤ Dm * (q1 (j0x * mu - mu * Tx) + q1 (mu * (j0x * mu) + Tx)) :=
+        mul_le_mul_of_nonneg_left key hDm
+
+
+/-- quadratic upper bound of the block cost around `z` (the gradient is Lipschitz) -/
+theorem blk_upper (hmu : 0 < mu) (hD0 : 0 ≤ D0) (hrel : ∀ i, D i * (mu * mu) = D0 * (w i * w i))
+    (j0x : ℝ) (jx : Fin n → ℝ) (j0z : ℝ) (jz : Fin n → ℝ) :
+    blkCost D0 mu D w j0x jx ≤
+      blkCost D0 mu D w j0z jz + (-(blkForceN D0 mu w j0z jz)) * (j0x - j0z) +
+      ∑ i, (-(blkForceT D0 mu D w j0z jz i)) * (jx i - jz i) +
+      1 / 2 * ellDm D0 mu * (1 + mu * mu) *
+        ((j0x * mu - j0z * mu) ^ 2 + (SS w jx - 2 * pp w jx jz + SS w jz)) := by
+  rw [sum_forceT hmu hrel, blkCost_eq hmu hrel, blkCost_eq hmu hrel, blkForceN_eq hmu]
+  have hDm := ellDm_nonneg hD0 mu
+  have hG := blkBeta_mul_T (w := w) hmu j0z jz
+  have hb1 := blkBeta_le_one (w := w) hmu j0z jz
+  have hp := pp_le w jx jz
+  have hTz := TT_sq w jz
+  have hTx := TT_sq w jx
+  have hU1 := q1_upper (j0x * mu - mu * TT w jx) (j0z * mu - mu * TT w jz)
+  have hU2 := q1_upper (mu * (j0x * mu) + TT w jx) (mu * (j0z * mu) + TT w jz)
+  set Dm := ellDm D0 mu
+  set β := blkBeta mu w j0z jz
+  set Tx := TT w jx
+  set Tz := TT w jz
+  set p := pp w jx jz
+  set a := q1' (j0z * mu - mu * Tz)
+  set b := q1' (mu * (j0z * mu) + Tz)
+  have hm : 0 < 1 + mu * mu := by positivity
+  have hpos : 0 ≤ (1 + mu * mu) * (1 - β) * (Tz * Tx - p) := by
+    have : 0 ≤ (1 + mu * mu) * (1 - β) := mul_nonneg hm.le (by linarith)
+    nlinarith
+  have key : q1 (j0x * mu - mu * Tx) + q1 (mu * (j0x * mu) + Tx) ≤
+      q1 (j0z * mu - mu * Tz) + q1 (mu * (j0z * mu) + Tz) + mu * (a + mu * b) * (j0x - j0z) +
+      (1 + mu * mu) * β * (p - SS w jz) +
+      1 / 2 * (1 + mu * mu) * ((j0x * mu - j0z * mu) ^ 2 + (SS w jx - 2 * p + SS w jz)) := by
+    have e : (1 + mu * mu) * β * (p - SS w jz) =
+        (1 + mu * mu) * β * (p - Tz * Tx) + (-mu * a + b) * (Tx - Tz) := by
+      rw [← hTz]; linear_combination (Tx - Tz) * hG
+    rw [e, ← hTz, ← hTx]
+    nlinarith
+  calc Dm * (q1 (j0x * mu - mu * Tx) + q1 (mu * (j0x * mu) + Tx))
+      ≤ Dm * (q1 (j0z * mu - mu * Tz) + q1 (mu * (j0z * mu) + Tz) + mu * (a + mu * b) * (j0x - j0z) +
+          (1 + mu * mu) * β * (p - SS w jz) +
+          1 / 2 * (1 + mu * mu) * ((j0x * mu - j0z * mu) ^ 2 + (SS w jx - 2 * p + SS w jz))) :=
+        mul_le_mul_of_nonneg_left key hDm
+    _ = _ := by ring
+
+end block2
+
 
 end MjProof.Constraint
